@@ -145,6 +145,26 @@ def needed_fixtures(pd, force):
     return _closure(fx, direct)
 
 
+def needed_by_suite(pd, force):
+    """{suite path: fixtures that this suite needs itself (its injected fixtures, the arguments of its setup_suite, the
+    arguments of its own tests that are going to run), directly or through fixture parameters}; {} entry = nothing to run"""
+    fx = _fixture_index(pd)
+    out = {}
+    for path, s, dis in walk_suites(pd):
+        tests = s.get("tests", [])
+        enabled = [t for t in tests if force or not (dis or t.get("disabled"))]
+        direct = set()
+        if enabled:
+            for t in enabled:
+                direct |= {a for a in t["args"] if a not in t.get("params", {})}
+            direct |= set(s.get("injected") or [])
+            ss = (s.get("hooks") or {}).get("setup_suite")
+            if ss:
+                direct |= set(ss["args"])
+        out[path] = _closure(fx, direct)
+    return out
+
+
 def _inst_key(fx, name, task):
     """The scope instance of fixture `name` that code running in `task` sees."""
     scope = (fx.get(name) or {}).get("scope")
@@ -221,6 +241,7 @@ def c03_oracle(case, r):
         elif op in ("hook_begin", "hook_end"):
             hooks.append((i, op, a[2], a[3], task))
     needed = needed_fixtures(pd, force)
+    by_suite = needed_by_suite(pd, force)
     test_finishes = {lab[1]: idx for lab, idx in finishes.items() if lab[0] == "TestTask"}
     for v, s in setups.items():
         f = fx.get(s["name"])
@@ -228,6 +249,13 @@ def c03_oracle(case, r):
             continue
         if s["name"] not in needed:
             hits.append(("unneeded-fixture-evaluated", "fixture %s is needed by no enabled scheduled test but was evaluated" % s["name"]))
+        elif (f.get("scope") == "suite" and s["task"] and s["task"][0] == "SuiteInitializationTask"
+              and s["task"][1] in by_suite and s["name"] not in by_suite[s["task"][1]]):
+            # once per scope INSTANCE that needs it (C03_suite_fixtures_exactly_the_needed_ones): a sub-suite needing a suite
+            # fixture does not make its parent need it
+            hits.append(("fixture-evaluated-for-a-suite-that-does-not-need-it",
+                         "suite fixture %s was evaluated for suite %s, which neither uses it nor has a test that is going to run "
+                         "and needs it" % (s["name"], s["task"][1])))
         td = teardowns.get(v, [])
         if len(td) > 1:
             hits.append(("fixture-torn-down-twice", "fixture %s torn down %d times" % (s["name"], len(td))))
